@@ -270,3 +270,76 @@ def gallina(sites):
 def problems(sites):
     bad = {"UIterated", "UEscapes", "USortedKey", "UNondetCall"}
     return ["src %s line %d: %s %s (%s)" % (t, l, c, u, x) for t, l, c, u, x in sites if u in bad and (c == "CSet" or u == "UNondetCall")]
+
+
+# ---------------------------------------------------------------------------- per-instance state
+# "the text is a function of the declarations": the mutable state of Parser / FFI / Recompiler / the model types must
+# belong to ONE object.  A mutable container bound in a class body is shared by every instance in the process (one
+# FFI's include() would then change what another FFI generates).  Regenerated fact `class_level_mutable_state`
+# (Gen.v): every class-body binding of a mutable container in the emitter's files and api.py, except constant tables
+# (ALL_CAPS name that no statement of these files mutates).  Obligation C23_state_is_per_instance: the list is empty.
+STATE_FILES = FILES + [("src/cffi/api.py", "ApiPy")]
+MUTABLE_CALLS = {"set", "dict", "list", "bytearray", "defaultdict", "OrderedDict", "deque", "Counter",
+                 "WeakKeyDictionary", "WeakValueDictionary", "WeakSet"}
+LIST_DICT_MUTATORS = SET_MUTATORS | {"append", "extend", "insert", "pop", "popitem", "setdefault", "sort", "reverse"}
+
+
+def _mutable_value(v):
+    if isinstance(v, (ast.Set, ast.Dict, ast.List, ast.ListComp, ast.SetComp, ast.DictComp)):
+        return True
+    if isinstance(v, ast.Call):
+        d = dotted(v.func) or ""
+        return d.split(".")[-1] in MUTABLE_CALLS
+    return False
+
+
+def class_state(repo):
+    """-> [(file tag, line, class, name, text)] of class-level mutable bindings that are not constant tables"""
+    trees = []
+    try:
+        for rel, tag in STATE_FILES:
+            trees.append((tag, py2coq.parse_source(os.path.join(repo, rel))))
+    except (SyntaxError, OSError) as e:
+        raise Untranslatable("class-state audit: %s" % e)
+    mutated = set()      # attribute / variable names that some statement mutates in place
+    for _, tree in trees:
+        for n in ast.walk(tree):
+            if isinstance(n, ast.Call) and isinstance(n.func, ast.Attribute) and n.func.attr in LIST_DICT_MUTATORS:
+                r = ref_name(n.func.value)
+                if r:
+                    mutated.add(r)
+            if isinstance(n, (ast.Subscript,)) and isinstance(n.ctx, (ast.Store, ast.Del)):
+                r = ref_name(n.value)
+                if r:
+                    mutated.add(r)
+            if isinstance(n, ast.AugAssign):
+                r = ref_name(n.target)
+                if r:
+                    mutated.add(r)
+    out = []
+    for tag, tree in trees:
+        for c in ast.walk(tree):
+            if not isinstance(c, ast.ClassDef):
+                continue
+            for s in c.body:
+                if isinstance(s, ast.Assign):
+                    names, v = [t.id for t in s.targets if isinstance(t, ast.Name)], s.value
+                elif isinstance(s, ast.AnnAssign) and s.value is not None and isinstance(s.target, ast.Name):
+                    names, v = [s.target.id], s.value
+                else:
+                    continue
+                if not _mutable_value(v):
+                    continue
+                for name in names:
+                    if name.isupper() and name not in mutated:
+                        continue          # constant table (ALL_STEPS, ALL_PRIMITIVE_TYPES)
+                    out.append((tag, s.lineno, c.name, name, ast.unparse(s).replace("\n", " ")[:70]))
+    return out
+
+
+def gallina_state(rows):
+    items = ";\n".join("  (%s, %d%%N)   (* class %s: %s *)" % (
+        tag, line, cls, text.replace("(*", "( *").replace("*)", "* )")) for tag, line, cls, name, text in rows)
+    return ("(* class-body bindings of mutable containers (shared by all instances of the class in the process) in\n"
+            "   recompiler.py, cffi_opcode.py, model.py, cparser.py, api.py; constant ALL_CAPS tables excluded *)\n"
+            "Definition class_level_mutable_state : list (srcfile * N) := [\n%s\n]." % items)
